@@ -31,6 +31,9 @@ const (
 	// million.
 	StepCap   = 60_000_000
 	spinLimit = 50_000
+	// fairnessLimit: statements a task may execute without completing an operation
+	// before another runnable task is given the turn
+	fairnessLimit = 4_000_000
 )
 
 // Decision is one scheduling choice: after task Task's own yield number Ord
@@ -77,6 +80,7 @@ type taskState struct {
 	recent   [16]int
 	nRecent  int
 	sinceNew int
+	sinceOp  int // statements since this task last completed an operation
 }
 
 var st struct {
@@ -295,6 +299,16 @@ func yieldHook(site int) {
 		}
 		if want {
 			next = pickOther(t)
+		}
+	}
+	// fairness: a task that has executed very many statements without completing
+	// an operation, while another task could run, is pre-empted once (a poll loop
+	// with a large body escapes the site-set detection above)
+	ts.sinceOp++
+	if next < 0 && ts.sinceOp > fairnessLimit {
+		ts.sinceOp = 0
+		if n := pickOther(t); n >= 0 {
+			next, kind = n, 3
 		}
 	}
 	if next < 0 && ts.same > spinLimit {
@@ -552,6 +566,9 @@ func setup(n int, seed uint64, pol Policy, replay [][]Decision) {
 func OpBoundary() {
 	if st.active {
 		st.lastProgress = st.total
+		if st.cur >= 0 && st.cur < st.nTasks {
+			st.tasks[st.cur].sinceOp = 0
+		}
 	}
 }
 
